@@ -41,7 +41,10 @@ ASSUMPTIONS = [
     "fuzzy matching combined with allow_incomplete is not generated (DataDirectory raises NotImplementedError)",
     "processor wiring of the returned components (D13) belongs to C01; real runs use the default single-thread processor",
     "make(_skip_if_built=True) returns before get_iter when every target is stored: mirrored in the op line (no temporary merge plugin)",
-    "the theorems need no hypothesis on the graph; only acyclic (topologically ordered) graphs are generated",
+    "ok-path theorems need no hypothesis on the graph; getComponents_ok_iff / errors_iff need topological order + unique providers, evaluated "
+    "per generated graph by the driver op c11.topo (in_hypothesis); cyclic graphs: 4 directed cases (components/cyclic), not random ones",
+    "'exactly once from exactly one origin' is a theorem about the returned components only; that the processors honour it is checked by the run "
+    "stage (compute called exactly once per chunk per running plugin; single-thread processor, 20 % threaded_mailbox) and otherwise belongs to C01",
 ]
 
 SW = strax.SaveWhen
@@ -151,44 +154,58 @@ def translate_should_save():
     return body, vals
 
 
+def _same_ast(node, expected_src, mode="eval"):
+    """formatting-insensitive comparison of an AST node with the expected source text"""
+    exp = ast.parse(expected_src, mode=mode)
+    exp = exp.body if mode == "eval" else exp.body[0]
+    return node is not None and ast.dump(node) == ast.dump(exp)
+
+
 def translate_rules():
-    """Two details of get_components around the temporary merge plugin, read off the AST of check_cache:
-    which name is handed to _target_should_be_saved as `targets`, and whether the `"*"` test skips `_temp_` types."""
+    """Two details of get_components around the temporary merge plugin, read off the AST of check_cache: what is handed to
+    _target_should_be_saved (the WHOLE call is checked: plugin, data type, targets, save), and whether the `"*"` test skips
+    `_temp_` types.  Comparisons are on AST dumps, so re-wrapping / re-formatting the source does not matter."""
     src = (REPO / "strax" / "context.py").read_text()
     gc = next((n for n in ast.walk(ast.parse(src)) if isinstance(n, ast.FunctionDef) and n.name == "get_components"), None)
     cc = next((n for n in ast.walk(gc) if isinstance(n, ast.FunctionDef) and n.name == "check_cache"), None) if gc else None
     if cc is None:
         raise Untranslatable("check_cache not found")
-    third = set()
-    for n in ast.walk(cc):
-        if isinstance(n, ast.Call) and isinstance(n.func, ast.Attribute) and n.func.attr == "_target_should_be_saved":
-            if len(n.args) != 4 or not isinstance(n.args[2], ast.Name):
-                raise Untranslatable("unexpected call of _target_should_be_saved")
-            third.add(n.args[2].id)
-    if third == {"targets"}:
+    calls = sorted((n for n in ast.walk(cc) if isinstance(n, ast.Call) and isinstance(n.func, ast.Attribute)
+                    and n.func.attr == "_target_should_be_saved"), key=lambda n: (n.lineno, n.col_offset))
+    if len(calls) != 2:
+        raise Untranslatable(f"{len(calls)} calls of _target_should_be_saved in check_cache (expected 2)")
+    variants = {}
+    for tg in ("targets", "final_targets"):
+        variants[tg] = [f"self._target_should_be_saved(target_plugin, target_i, {tg}, save)",
+                        f"self._target_should_be_saved(target_plugin, d_to_save, {tg}, save)"]
+    which = [tg for tg, exp in variants.items() if all(_same_ast(c, e) for c, e in zip(calls, exp))]
+    if len(which) != 1:
+        raise Untranslatable("calls of _target_should_be_saved are not (target_plugin, target_i|d_to_save, [final_]targets, save)")
+    if which[0] == "targets":
         temp_deps = False
-    elif third == {"final_targets"}:
+    else:
         assign = next((n for n in ast.walk(gc) if isinstance(n, ast.Assign) and len(n.targets) == 1
                        and isinstance(n.targets[0], ast.Name) and n.targets[0].id == "final_targets"), None)
-        seg = ast.get_source_segment(src, assign.value) if assign is not None else ""
-        norm = " ".join(seg.split())
-        if norm != ("tuple( d for t in targets for d in (plugins[t].depends_on if t.startswith(TEMP_DATA_TYPE_PREFIX) else (t,)) )"):
+        if assign is None or not _same_ast(assign.value, "tuple(d for t in targets for d in (plugins[t].depends_on "
+                                                         "if t.startswith(TEMP_DATA_TYPE_PREFIX) else (t,)))"):
             raise Untranslatable("final_targets is not `targets with every _temp_ target replaced by its depends_on`")
+        # ... and it must not be re-assigned anywhere else
+        if sum(1 for n in ast.walk(gc) if isinstance(n, ast.Name) and n.id == "final_targets" and isinstance(n.ctx, ast.Store)) != 1:
+            raise Untranslatable("final_targets assigned more than once")
         temp_deps = True
-    else:
-        raise Untranslatable(f"_target_should_be_saved called with {sorted(third)}")
     star = None
     for n in ast.walk(cc):
         if isinstance(n, ast.If):
-            seg = " ".join((ast.get_source_segment(src, n.test) or "").split())
-            if seg == '"*" in self.context_config["forbid_creation_of"]':
-                star = False
-            elif seg.replace("[ ", "[").replace(" ]", "]") == ('"*" in self.context_config["forbid_creation_of"] and not '
-                                                               'target_i.startswith(TEMP_DATA_TYPE_PREFIX)'):
-                star = True
-    if star is None:
+            if _same_ast(n.test, '"*" in self.context_config["forbid_creation_of"]'):
+                star = False if star is None else "twice"
+            elif _same_ast(n.test, '"*" in self.context_config["forbid_creation_of"] and not target_i.startswith(TEMP_DATA_TYPE_PREFIX)'):
+                star = True if star is None else "twice"
+    if star is None or star == "twice":
         raise Untranslatable('test `"*" in forbid_creation_of` not recognised')
     return temp_deps, star
+
+
+STALE = {}   # generated definition name -> reason, when the current source could not be translated
 
 
 def regen(ctx):
@@ -198,27 +215,36 @@ def regen(ctx):
         ctx.translator["check_cache.rules"] = dict(tempDepsAreTargets=temp_deps, starSkipsTemp=star)
     except Untranslatable as e:
         ctx.translator["check_cache.rules"] = f"untranslatable: {e}"
-        ctx.note(f"translator could not read the _temp_ rules of check_cache ({e}); the differential run decides")
+        STALE["rules"] = str(e)
+        ctx.note(f"translator could not read the _temp_ rules of check_cache ({e}): Generated.rules keeps its previous value; no theorem "
+                 "depends on that value (all hold for both), the components/* differential runs decide whether it still matches")
         prev = out.read_text() if out.exists() else ""
         temp_deps, star = "tempDepsAreTargets := true" in prev, "starSkipsTemp := true" in prev
+    prev = out.read_text() if out.exists() else ""
     try:
         body, vals = translate_should_save()
+        ctx.translator["_target_should_be_saved"] = "ok"
+        ctx.translator["SaveWhen"] = vals
+        section = ("def saveWhenValue : SaveWhen → Nat\n"
+                   + "".join(f"  | .{POL_LEAN[k]} => {vals[k]}\n" for k in ("NEVER", "EXPLICIT", "TARGET", "ALWAYS"))
+                   + "\ndef shouldSave (pol : SaveWhen) (inTargets inSave : Bool) : Except Err Bool :=\n"
+                   f"  {body}\n\n")
     except Untranslatable as e:
         ctx.translator["_target_should_be_saved"] = f"untranslatable: {e}"
-        # finite domain: the exhaustive differential run below is a complete equivalence check by itself (DESIGN §2.2)
-        ctx.note(f"translator could not handle _target_should_be_saved ({e}); relying on the exhaustive differential run")
-        return
-    ctx.translator["_target_should_be_saved"] = "ok"
-    ctx.translator["SaveWhen"] = vals
-    text = ("-- GENERATED by checks/props/c11.py:regen from /repo/strax/context.py (Context._target_should_be_saved)\n"
-            "-- and /repo/strax/plugins/plugin.py (class SaveWhen). Do not edit.\n"
+        STALE["shouldSave"] = str(e)
+        # the previous translation stays in place (so the library still builds); `gen_eq_model` is then NOT about the current
+        # source: _run marks it `stale` and lets the exhaustive differential run over the finite domain decide (DESIGN §2.2)
+        ctx.note(f"translator could not handle _target_should_be_saved ({e}); Generated.shouldSave is the PREVIOUS translation")
+        a, b = prev.find("def saveWhenValue"), prev.find("/-- how check_cache")
+        if a < 0 or b < 0:
+            return
+        section = prev[a:b]
+    text = ("-- GENERATED by checks/props/c11.py:regen from /repo/strax/context.py (Context._target_should_be_saved,\n"
+            "-- check_cache) and /repo/strax/plugins/plugin.py (class SaveWhen). Do not edit.\n"
             "import StraxModel.Model.Components\n"
             "namespace Strax.Generated\n"
             "open Strax Strax.Components\n\n"
-            "def saveWhenValue : SaveWhen → Nat\n"
-            + "".join(f"  | .{POL_LEAN[k]} => {vals[k]}\n" for k in ("NEVER", "EXPLICIT", "TARGET", "ALWAYS"))
-            + "\ndef shouldSave (pol : SaveWhen) (inTargets inSave : Bool) : Except Err Bool :=\n"
-            f"  {body}\n\n"
+            + section +
             "/-- how check_cache treats the temporary merge plugin (see `Components.Rules`) -/\n"
             f"def rules : Rules := {{ tempDepsAreTargets := {str(temp_deps).lower()}, starSkipsTemp := {str(star).lower()} }}\n\n"
             "end Strax.Generated\n")
@@ -320,12 +346,12 @@ def new_context(storage, **kw):
 class World:
     """classes of one graph + two pools of stored data (exact lineage / other lineage) made by the twin context"""
 
-    def __init__(self, plugins):
+    def __init__(self, plugins, nopool=False):
         self.plugins = plugins
         self.dir = tempfile.mkdtemp(prefix="w_", dir=base_dir())
         self.types = [o for p in plugins for o, _ in p["outs"] if not o.startswith("_temp_")]
         self.pool = {}
-        for kind, ver in (("exact", 0), ("stale", 1)):
+        for kind, ver in (() if nopool else (("exact", 0), ("stale", 1))):
             d = os.path.join(self.dir, "pool_" + kind)
             twin = new_context([strax.DataDirectory(d)], config=dict(ver=ver))
             register_all(twin, [p for p in plugins if not p["outs"][0][0].startswith("_temp_")], always=True)
@@ -396,11 +422,11 @@ _WORLD = {"key": None, "world": None}
 
 
 def world_for(case):
-    key = repr(case["plugins"])
+    key = repr((case["plugins"], case.get("nopool")))
     if _WORLD["key"] != key:
         if _WORLD["world"] is not None:
             _WORLD["world"].close()
-        _WORLD["world"] = World(case["plugins"])
+        _WORLD["world"] = World(case["plugins"], nopool=bool(case.get("nopool")))
         _WORLD["key"] = key
     return _WORLD["world"]
 
@@ -432,7 +458,7 @@ def configure(st, case):
         forbid_creation_of=tuple(case["forbid"]),
         fuzzy_for=("zz_dummy",) if fuzzy == "for" else tuple(),
         fuzzy_for_options=("ver",) if fuzzy == "opts" else tuple(),
-        allow_incomplete=bool(case["inc"])))
+        allow_incomplete=bool(case["inc"]), timeout=60))
 
 
 def frontend_index(world, path):
@@ -575,6 +601,8 @@ def parse_comp(out):
 def oracle_comp(case, out):
     if case.get("malformed"):
         return None if out.startswith("err") else f"malformed request ({case['malformed']}) accepted"
+    if case.get("cyclic") == "reachable":
+        return None if out.startswith("err") else "a request whose dependency closure contains a cycle was accepted"
     w = wording(case, case["targets"])
     if out.startswith("err"):
         if w["must"] or w["may"]:
@@ -636,10 +664,13 @@ def impl_run(case):
     arg = targets if len(targets) > 1 else targets[0]
     try:
         try:
+            kw = request_kwargs(case)
+            if case.get("proc"):
+                kw.update(processor=case["proc"], max_workers=2)
             if case["api"] == "make":
-                st.make(RUN, arg, save=tuple(case["save"]), **request_kwargs(case))
+                st.make(RUN, arg, save=tuple(case["save"]), **kw)
             else:
-                st.get_array(RUN, arg, save=tuple(case["save"]), progress_bar=False, **request_kwargs(case))
+                st.get_array(RUN, arg, save=tuple(case["save"]), progress_bar=False, **kw)
         except Exception as e:  # noqa: BLE001
             leftovers = [sorted(a - b) for a, b in zip(world.listing(), before)]
             if any(n for l in leftovers for n in l if not n.endswith("_temp")):
@@ -655,9 +686,10 @@ def impl_run(case):
         savers = sorted(t + "@" + "+".join(str(i) for i in order if i in idx) for t, idx in new.items())
         lost = [n for a, b in zip(after, before) for n in b - a if not (n.endswith("_temp") and n[:-5] in a)]
         ran = sorted(int(k[1:]) for k, v in COUNTS.items() if v > 0)
-        twice = [k for k, v in COUNTS.items() if v > 2]
+        # every source makes two chunks and nothing is rechunked: a plugin that runs is called exactly once per chunk
+        twice = [f"{k}x{v}" for k, v in COUNTS.items() if v != 2]
         return (f"ok ran={join(map(str, ran))} new={join(savers)}" + (" !lost=" + join(sorted(lost)) if lost else "")
-                + (" !computed-more-than-once=" + join(sorted(twice)) if twice else ""))
+                + (" !miscount=" + join(sorted(twice)) if twice else ""))
     finally:
         for k in list(st._plugin_class_registry):
             if k.startswith("_temp"):
@@ -692,8 +724,8 @@ def oracle_run(case, out):
         return d23(case, out, w) or f"request failed with {out} although every needed type is stored or creatable"
     if "!lost" in out:
         return "stored data disappeared"
-    if "!computed-more-than-once" in out:
-        return "a plugin computed the same chunks more than once: " + out
+    if "!miscount" in out:
+        return "a plugin that ran was not called exactly once per chunk (2 chunks): " + out
     if w["must"]:
         return f"no error although {w['must']} is needed, not stored and may not be created / saved"
     f = dict(x.split("=", 1) for x in out.split(" ")[1:])
@@ -790,6 +822,18 @@ def gen_request(rng, plugins, allow_temp=True):
     return dict(targets=targets, save=save, mods=mods, fuzzy=fuzzy, inc=inc, forbid=forbid)
 
 
+def hypotheses(ctx, cases):
+    """evaluate the hypotheses of getComponents_ok_iff (topological order, unique providers) on every generated graph"""
+    graphs = {}
+    for c in cases:
+        graphs.setdefault(repr(c["plugins"]), c["plugins"])
+    if not ctx.model_available or not graphs:
+        return lambda c, o: False
+    res = ctx.driver.run(["c11.topo " + join((show_plugin(p) for p in pl), ";") for pl in graphs.values()])
+    table = dict(zip(graphs, (r == "ok 11" for r in res)))
+    return lambda c, o: table[repr(c["plugins"])]
+
+
 def branch_comp(case, out):
     if out.startswith("err"):
         return out
@@ -822,6 +866,21 @@ def _run(ctx, rng):
                    branch=lambda c, o: c["pol"] + ":" + o)
     ctx.correspond("save_when_values/exhaustive", [dict(pol=p) for p in "NETA"], impl_swval, lambda c: f"c11.swval {c['pol']}", None,
                    exhaustive=True, rule="numeric values of the four SaveWhen members")
+    if "shouldSave" in STALE:
+        comps = [ctx.components.get("should_save/exhaustive"), ctx.components.get("save_when_values/exhaustive")]
+        passed = ctx.model_available and all(c is not None and c.disagreements == 0 and c.oracle_failures == 0 for c in comps)
+        for t in ctx.theorems:
+            if t["name"].endswith(("gen_eq_model", "gen_values_eq_model")):
+                t["status"] = "stale"          # not counted as discharged: it is about the previous translation
+                t["strength"] = "stale"
+        if passed:
+            ctx.note("gen_eq_model / gen_values_eq_model are about the PREVIOUS translation (current source untranslatable: "
+                     f"{STALE['shouldSave']}); the exhaustive differential run over the whole finite domain (16 + 4 cases) passed, which is a "
+                     "complete equivalence check of the current source with the generated definition, hence with the model")
+        else:
+            ctx.violation("translator:_target_should_be_saved", "translator", None, {"reason": STALE["shouldSave"]},
+                          "the translator regenerates Generated.shouldSave from the current source, or the exhaustive differential run "
+                          "over its finite domain passes", False)
     subsets = [[], ["aa"], ["bb"], ["aa", "bb"]]
     cases = [dict(excl=e, take=k, t=t) for e in subsets for k in subsets for t in ("aa", "bb", "cc")]
     ctx.correspond("we_take/exhaustive", cases, impl_wetake, lambda c: f"c11.wetake {join(c['excl'])} {join(c['take'])} {c['t']}", None,
@@ -844,7 +903,7 @@ def _run(ctx, rng):
                     cases.append(dict(plugins=plugins, fronts=[dict(ro=0, st=1, take=[], excl=[], complete=list(stored), incomplete=[], stale=[])], **req))
     ctx.correspond("components/all-stored-subsets", cases, impl_comp, op_comp, oracle_comp, nontrivial=nontrivial_comp, exhaustive=True,
                    rule=f"{n_small} random DAGs of 2..5 data types x ALL stored subsets x every single target (one writable frontend); random save=/modifiers on 40 %",
-                   branch=branch_comp, in_hyp=lambda c, o: True)
+                   branch=branch_comp, in_hyp=hypotheses(ctx, cases))
 
     # 3. get_components: random DAGs x storage states x requests
     cases = []
@@ -859,7 +918,22 @@ def _run(ctx, rng):
                    rule="random DAGs (2..7 types, 1..3 outputs per plugin, per-output policies, optional _temp_ merge plugin) x 1..2 frontends "
                         "(readonly / take_only / exclude / storage type; complete, *_temp and other-lineage data) x targets (1..3 or the temp plugin) x save= x "
                         "time_range / selection / keep|drop columns / fuzzy_for[_options] / allow_incomplete x forbid_creation_of; non-trivial = error, or both loaders and plugins",
-                   branch=branch_comp, in_hyp=lambda c, o: True)
+                   branch=branch_comp, in_hyp=hypotheses(ctx, cases))
+
+    # cyclic graphs (outside the hypotheses of getComponents_ok_iff; the other theorems and the model still apply)
+    fr0 = [dict(ro=0, st=1, take=[], excl=[], complete=[], incomplete=[], stale=[])]
+    cb = dict(fronts=fr0, save=[], mods=dict(tr=0, sel=0, col=None), fuzzy=None, inc=0, forbid=[], nopool=1)
+    cyc3 = [dict(outs=[["p0a", "A"]], deps=[]), dict(outs=[["p1a", "A"]], deps=["p2a"]), dict(outs=[["p2a", "T"]], deps=["p1a", "p0a"])]
+    cyc = [dict(cb, plugins=[dict(outs=[["p0a", "A"]], deps=["p0a"])], targets=["p0a"], cyclic="reachable"),
+           dict(cb, plugins=[dict(outs=[["p0a", "A"]], deps=["p1a"]), dict(outs=[["p1a", "A"], ["p1b", "E"]], deps=["p0a"])], targets=["p1b"],
+                cyclic="reachable"),
+           dict(cb, plugins=cyc3, targets=["p2a"], cyclic="reachable"),
+           dict(cb, plugins=cyc3, targets=["p0a"], cyclic="unreachable")]
+    ctx.correspond("components/cyclic", cyc, impl_comp, op_comp, oracle_comp, exhaustive=False,
+                   rule="directed cases: self-dependency, 2-cycle through a multi-output plugin, 2-cycle below a target (the unguarded recursion of "
+                        "__get_plugin ends in RecursionError = RuntimeError; the model's fuel gives runtimeError) and a cycle NOT below the target (ok)",
+                   branch=lambda c, o: c["cyclic"] + ":" + o.split(" ")[0] + ("" if o.startswith("ok") else " " + o.split(" ")[1]),
+                   in_hyp=hypotheses(ctx, cyc))
 
     # malformed requests
     plugins = gen_graph(rng, n_types=3)
@@ -879,11 +953,13 @@ def _run(ctx, rng):
             fronts = gen_fronts(rng, types)
             for ri in range(ctx.pick(3, 4)):
                 req = gen_request(rng, plugins)
-                cases.append(dict(plugins=plugins, fronts=fronts, api=rng.choice(["get_array", "make"]), **req))
+                cases.append(dict(plugins=plugins, fronts=fronts, api=rng.choice(["get_array", "make"]),
+                                  proc="threaded_mailbox" if rng.random() < 0.2 else None, **req))
     ctx.correspond("run/random", cases, impl_run, op_run, oracle_run, nontrivial=lambda c, o: o.startswith("err") or "ran=-" not in o,
-                   rule="get_array / make on random DAGs x storage states x requests: compute-call counters per plugin class and the directory "
+                   rule="get_array / make (default single-thread processor; 20 % with processor='threaded_mailbox', max_workers=2) on random DAGs x storage states x requests: compute-call counters per plugin class and the directory "
                         "listings before/after against the driver's prediction and against the property wording; non-trivial = something ran or an error",
-                   branch=lambda c, o: c["api"] + ":" + (o if o.startswith("err") else ("ran" if "ran=-" not in o else "idle") + ("+saved" if "new=-" not in o else "")))
+                   branch=lambda c, o: c["api"] + ("/threaded" if c.get("proc") else "") + ":" + (o if o.startswith("err") else ("ran" if "ran=-" not in o else "idle") + ("+saved" if "new=-" not in o else "")),
+                   in_hyp=hypotheses(ctx, cases))
 
 
 def search(ctx):
